@@ -287,3 +287,18 @@ Proof.
     exists s. split; [apply Hspec; exists e; split; assumption|].
     apply in_flat_map. exists (Acquire k). split; [exact Hl | left; reflexivity].
 Qed.
+
+(* the computed field set is exactly the set of fields touched by some reachable function *)
+Theorem fields_from_spec : forall sel g es L,
+  fields_from sel g es = Some L ->
+  forall k, In k L <-> exists e s f, In e es /\ Reachable g e s /\ lookup g (fst s) = Some f /\ In k (sel f).
+Proof.
+  intros sel g es L H k. unfold fields_from in H.
+  destruct (reach_sound_complete_multi g es) as [V [HV Hspec]]. rewrite HV in H.
+  injection H as H. subst L. rewrite dedupN_In, in_flat_map. split.
+  - intros [s [Hin Hk]]. apply Hspec in Hin. destruct Hin as [e [He Hr]].
+    destruct (lookup g (fst s)) as [f|] eqn:El; [|destruct Hk].
+    exists e, s, f. repeat split; assumption.
+  - intros [e [s [f [He [Hr [El Hk]]]]]]. exists s. split; [apply Hspec; exists e; split; assumption|].
+    rewrite El. exact Hk.
+Qed.
